@@ -128,6 +128,24 @@ def detectencoding_str(input, final=False):  # noqa: C901
                         candidates &= ~CANDIDATE_UTF_32_BE
                     if c != b"a"[0]:
                         candidates &= ~CANDIDATE_CHARSET
+    if final:
+        # there will be no more data, so candidates that need more bytes
+        # than we have are out (b"\xff\xfe" is a UTF-16 BOM, not half a UTF-32 one)
+        if li < 4:
+            candidates &= ~(
+                CANDIDATE_UTF_16_LE
+                | CANDIDATE_UTF_32_AS_LE
+                | CANDIDATE_UTF_32_AS_BE
+                | CANDIDATE_UTF_32_LE
+                | CANDIDATE_UTF_32_BE
+                | CANDIDATE_CHARSET
+            )
+        if li < 3:
+            candidates &= ~CANDIDATE_UTF_8_SIG
+        if li < 2:
+            candidates &= ~(
+                CANDIDATE_UTF_16_AS_LE | CANDIDATE_UTF_16_AS_BE | CANDIDATE_UTF_16_BE
+            )
     if candidates == 0:
         return ("utf-8", False)
     if not (candidates & (candidates - 1)):  # only one candidate remaining
